@@ -267,7 +267,7 @@ def make_units(prop, tier, only=None):
                 u = {'prop': prop, 'module': modname, 'options': opts, 'L': L, 'K': 1,
                      'is_valid_takes_options': accepted_by(info, 'is_valid', opts)}
                 if tier == 'quick':
-                    u.update(max_paths=3000, timeout=60, query_timeout_ms=10000)
+                    u.update(max_paths=2000, timeout=30, query_timeout_ms=5000)
                 else:
                     u.update(max_paths=50000, timeout=600, query_timeout_ms=60000)
                 units.append(u)
